@@ -3,6 +3,7 @@ package main
 import (
 	"fmt"
 	"runtime"
+	"strings"
 	"sync"
 	"sync/atomic"
 	"time"
@@ -70,7 +71,9 @@ func runRaceStress(a *args, res *result) {
 		res.inconclusive("racestress must be built with -race")
 		return
 	}
-	kinds := []string{"Map", "MapOf[int,*payload]", "Cache", "CacheOf[int,*payload]"}
+	// the /const and /mod2 kinds put every key into one or two bucket chains with one 7-bit
+	// hash, so that every lookup walks freshly appended overflow buckets and entries
+	kinds := []string{"Map", "MapOf[int,*payload]", "Cache", "CacheOf[int,*payload]", "MapOf[int,*payload]/const", "MapOf[int,*payload]/mod2"}
 	// perturbation is configured once, before any goroutine runs library code:
 	// janitors of earlier configurations may still be alive later on
 	level := 0
@@ -88,6 +91,9 @@ func runRaceStress(a *args, res *result) {
 				}
 				r := newRng(a.seed, uint64(idx)*8+1)
 				cfg := raceCfg{kind: kind, goroutines: pick(r, []int{2, 4, 8, 16, 24, 64}), ops: int(a.n2), keys: pick(r, []int{8, 64, 300, 1200, 4000}), level: level, procs: procs}
+				if strings.Contains(kind, "/") {
+					cfg.keys = pick(r, []int{8, 24, 64})
+				}
 				logCase("racestress %+v", cfg)
 				runRaceCfg(cfg, r, res)
 				res.Evaluations++
@@ -157,8 +163,9 @@ func runRaceCfg(cfg raceCfg, r rng, res *result) {
 		seeds[i] = r.Uint64()
 	}
 	switch cfg.kind {
-	case "Map", "MapOf[int,*payload]":
-		m := newMap(mapSpec{Flavor: cfg.kind, Hint: noHint, NKeys: cfg.keys})
+	case "Map", "MapOf[int,*payload]", "MapOf[int,*payload]/const", "MapOf[int,*payload]/mod2":
+		flavor, hasher, _ := strings.Cut(cfg.kind, "/")
+		m := newMap(mapSpec{Flavor: flavor, Hasher: hasher, Hint: noHint, NKeys: cfg.keys})
 		for g := 0; g < cfg.goroutines; g++ {
 			wg.Add(1)
 			go func(g int) {
@@ -223,7 +230,7 @@ func runRaceCfg(cfg raceCfg, r rng, res *result) {
 		wg.Wait()
 		// shrink-jitter phase: a grown table is drained through every shrink
 		// threshold while other goroutines keep its size jittering around them
-		m2 := newMap(mapSpec{Flavor: cfg.kind, Hint: noHint, NKeys: jitterKeys})
+		m2 := newMap(mapSpec{Flavor: flavor, Hint: noHint, NKeys: jitterKeys})
 		shrinkJitter(cfg, func() {
 			for k := 0; k < jitterKeys; k++ {
 				m2.Store(k, next(k))
